@@ -42,7 +42,7 @@ Inductive case :=
        (dumps : list (list (Z * option cval))) (* dump after each connect, as the changes to the previous dump *)
        (dend : list (Z * option cval))         (* dump after all of them were removed (last first), as the changes to [d0] *)
        (q0 qend : cquery)                      (* query answers before / after *)
-       (guarded : bool).                       (* harness claims the guard holds (checked here) *)
+       (guarded : bool).                       (* harness' stream label: no failed coins tx with a local effect (checked here) *)
 
 Fixpoint list_eqb2 {A B} (eqb : A -> B -> bool) (a : list A) (b : list B) : bool :=
   match a, b with
@@ -132,14 +132,14 @@ Definition l3_eqb := list_eqb (fun x y : Z * Z * Z => Z.eqb (fst (fst x)) (fst (
 Definition l4_eqb := list_eqb (fun x y : Z * Z * Z * Z =>
   Z.eqb (fst (fst (fst x))) (fst (fst (fst y))) && (snd (fst (fst x)) =? snd (fst (fst y)))
   && (snd (fst x) =? snd (fst y)) && (snd x =? snd y)).
-Definition caddr_eqb (ignore_recv : bool) (x y : caddr) : bool :=
+Definition caddr_eqb (x y : caddr) : bool :=
   match x, y with
   | CAddr a c r l0 l1 l2 lf, CAddr a' c' r' l0' l1' l2' lf' =>
-      Z.eqb a a' && (c =? c') && (ignore_recv || (r =? r')) && l3_eqb l0 l0' && l3_eqb l1 l1' && l3_eqb l2 l2' && l4_eqb lf lf'
+      Z.eqb a a' && (c =? c') && (r =? r') && l3_eqb l0 l0' && l3_eqb l1 l1' && l3_eqb l2 l2' && l4_eqb lf lf'
   end.
 Definition nzz_eqb (x y : Z * option (Z * Z)) : bool := Z.eqb (fst x) (fst y) && zz_eqb (snd x) (snd y).
-Definition cquery_eqb (ignore_recv : bool) (x y : cquery) : bool :=
-  list_eqb (caddr_eqb ignore_recv) (q_addrs x) (q_addrs y)
+Definition cquery_eqb (x y : cquery) : bool :=
+  list_eqb caddr_eqb (q_addrs x) (q_addrs y)
   && list_eqb nzz_eqb (q_txs x) (q_txs y) && list_eqb nzz_eqb (q_totals x) (q_totals y).
 End Resolve.
 
@@ -189,11 +189,7 @@ Definition check_case (c : case) : verdict :=
         end in
       let qmodel := queries_ok T m0 q0 && queries_ok T mend qend in
       let guard := forallb all_local_ok bs in
-      let spec := obs_eqb mend m0 && cquery_eqb false q0 qend in
+      let spec := obs_eqb mend m0 && cquery_eqb q0 qend in
       let m_ok := sorted_ok && model && qmodel && Bool.eqb guard guarded in
-      if spec then mk_verdict m_ok true
-      else
-        (* known finding 1: only receiver totals of failed coins transfers differ *)
-        let kf := negb guard && obs_eqb (undo_failed mend bs) m0 && cquery_eqb true q0 qend in
-        (m_ok, false, if kf then 1%N else 0%N)
+      mk_verdict m_ok spec
   end.
